@@ -10,33 +10,36 @@ DRIVER = "c10"
 MODEL = "C10"
 MODEL_QUALID = "Model.Cache.run_script"
 FORMAT = ("script [policy 0=LRU 1=LFU 2=FIFO; max_size; ttl (-1 none); sh; n callers; m events; (op a b)*m] "
-          "sh%4: 0=private(CacheLayer) 1=SharedCacheLayer::builder 2,3=CacheLayer::shared(); (sh//4) odd: ttl in microseconds, else milliseconds; "
+          "sh%4: 0=private(CacheLayer) 1=SharedCacheLayer::builder 2,3=CacheLayer::shared(); (sh//4) odd: ttl in fine units, else milliseconds; (sh//8) odd: fine unit = ns, else us; "
           "op 0=Call a on service b//8 with key b%8 (fresh clone of the service), "
           "5=Call a with key b%128 (<120) on service (b//128)%2, b//256=1: through the long-lived service value itself (no clone), "
-          "1=Poll a, 2=Drop a, 3=Advance a ms, 6=Advance a microseconds (one jump), "
+          "7=Call a with key b%256 (<240) on service (b//256)%2, b//512=1: long-lived value, "
+          "1=Poll a, 2=Drop a, 3=Advance a ms, 6=Advance a fine units (one jump), "
           "4=Complete a b (b>0 Ok with value b, 0 Err, <0 panic); the model additionally reads m oracle values appended by model_input "
           "(key that left a store during each event of the implementation run; consulted only when an LFU insert must evict). "
           "trace: per event [r; value; inner calls started; inner calls in flight; listener events 1=hit 2=miss 4=eviction (+64 model: oracle not a minimal-frequency key); "
-          "bitmask of keys present in store 0; in store 1 (live key instances); bitmask of keys with a stored response in store 0; in store 1 (live response instances)] "
+          "bitmask of keys present in store 0 (two words: keys 0..119, 120..239); in store 1 (two words) (live key instances); bitmask of keys with a stored response in store 0 (two words); in store 1 (two words) (live response instances)] "
           "with r: -1 no poll, 0 pending, 1 Ok, 2 Err(Inner), 5 panicked, 9 nothing to poll")
 RULE = ("random histories over 2-5 keys and two services (private or shared store), three policies, max_size 0..4, TTL none/0/short/long with advances "
         "landing exactly on, just before and just after the TTL, overlapping misses (also on one key), ok (unique serial values) / err / panic / never-completing inner "
         "calls, cancellations; calls through fresh clones and through one long-lived service value; a few capacities that never fill (1000, 100000); large stores (max_size 5..33, up to 2*max_size+2 keys, "
         "skewed access so that frequencies and recencies differ, >8 entries) with long sequential histories; TTLs with sub-millisecond parts (999, 1500, 20000 us), "
-        "1 s, 1 h and u64::MAX us with microsecond advances and jumps landing on ttl-1us / ttl / ttl+1us; all short histories over a tiny alphabet in thorough; "
+        "1 s, 1 h and u64::MAX us with microsecond advances and jumps landing on ttl-1us / ttl / ttl+1us; a nanosecond clock with TTLs such as 1500 ns and lookups at ttl-1ns / ttl / ttl+1ns / inside the same microsecond; stores of 64..130 entries over up to 160 of 240 keys (every insert evicts; sampled victim searches with a sample below 130 show); LFU with two hot keys used 14..303 times (wrapping or saturating counters); all short histories over a tiny alphabet in thorough; "
         "non-trivial = an eviction, an expiry or a hit happened")
 TRUSTED = ["lru 0.16 LruCache (get/push/pop), std HashMap/VecDeque inside LfuStore/FifoStore are modelled as one ordered list; tied to the libraries only by this correspondence run",
            "presence in a store is observed by counting live instances of the harness's key type (store copies = live - pending misses) and of its response type "
            "(store copies = live - unpolled hits); the monitor uses the response view, the model comparison both",
            "LFU victim among minimal-frequency keys (HashMap iteration order) is taken from the implementation run as an oracle; the model checks it is a minimal-frequency key and the theorems hold for every oracle",
            "poll atomicity: the store mutex is never held across an await"]
-ASSUMPTIONS = ["whole-microsecond instants", "single-threaded deterministic executor: one poll at a time",
+ASSUMPTIONS = ["whole-nanosecond instants", "single-threaded deterministic executor: one poll at a time",
                "max_size >= 1 for the size/victim theorems (0 is exercised by the correspondence run only: LRU turns it into 100, LFU/FIFO into 1)",
                "a lookup happens in call() (a call that makes no inner call during call() is a hit); the age of a value is counted from the poll that stored it to the lookup"]
 KNOWN_DEFECT = []   # scripts on which the REAL code violates the property (none found)
 
-REC = 9
-NK = 120
+REC = 13
+NK = 120          # keys of op 5; op 7 reaches NK2
+NK2 = 240
+WORD = 120
 U64 = (1 << 64) - 1
 
 
@@ -49,10 +52,16 @@ def mode_of(sh):
     return sh % 4
 
 
+def unit_of(sh):
+    """fine units (us, or ns when (sh//8) is odd) per millisecond"""
+    return 10 ** 6 if (sh // 8) % 2 == 1 else 1000
+
+
 def ttl_us_of(ttl, sh):
+    """ttl in fine units"""
     if ttl < 0:
         return -1
-    return ttl if (sh // 4) % 2 == 1 else 1000 * ttl
+    return ttl if (sh // 4) % 2 == 1 else unit_of(sh) * ttl
 
 
 def events(s):
@@ -70,14 +79,16 @@ def call_of(e):
         return b // 8, b % 8, 0
     if op == 5 and 0 <= b < 512 and b % 128 < NK:
         return (b // 128) % 2, b % 128, b // 256
+    if op == 7 and 0 <= b < 1024 and b % 256 < NK2:
+        return (b // 256) % 2, b % 256, b // 512
     return None
 
 
-def adv_of(e):
-    """microseconds the event advances the clock by"""
+def adv_of(e, unit=1000):
+    """fine units the event advances the clock by"""
     op, a, b = e
     if op == 3:
-        return 1000 * min(max(a, 0), 100000)
+        return unit * min(max(a, 0), 100000)
     if op == 6:
         return min(max(a, 0), 10 ** 12)
     return 0
@@ -90,13 +101,12 @@ def decode(s, t):
     return [(e, t[REC * j:REC * j + REC]) for j, e in enumerate(evs)]
 
 
-def bits(x):
-    out, k = [], 0
-    while x > 0:
-        if x & 1:
-            out.append(k)
-        x >>= 1
-        k += 1
+def masks(o):
+    """(key mask store 0, store 1, response mask store 0, store 1) of one record; -1 when the accounting broke"""
+    out = []
+    for c in (5, 7, 9, 11):
+        lo, hi = o[c], o[c + 1]
+        out.append(-1 if lo < 0 or hi < 0 else lo | (hi << WORD))
     return out
 
 
@@ -110,12 +120,13 @@ def model_input(s, t):
     prev = [0, 0]
     orc = []
     for (_, o) in d:
+        km = masks(o)[:2]
         gone = -1
         for st in (0, 1):
-            lost = prev[st] & ~o[5 + st] if o[5 + st] >= 0 else 0
+            lost = prev[st] & ~km[st] if km[st] >= 0 else 0
             if lost and gone < 0:
                 gone = lost.bit_length() - 1
-            prev[st] = o[5 + st] if o[5 + st] >= 0 else 0
+            prev[st] = km[st] if km[st] >= 0 else 0
         orc.append(gone)
     return base + orc
 
@@ -128,11 +139,16 @@ def mk(pol, ms, ttl, sh, n, evs):
     return s
 
 
-C, P, D, A, K, W, U = 0, 1, 2, 3, 4, 5, 6
+C, P, D, A, K, W, U, W2 = 0, 1, 2, 3, 4, 5, 6, 7
 
 
 def wide(svc, k, reuse=0):
     return k + 128 * svc + 256 * reuse
+
+
+def wide2(svc, k, reuse=0):
+    """argument of op 7 (keys 0..239)"""
+    return k + 256 * svc + 512 * reuse
 
 
 def corpus():
@@ -186,6 +202,17 @@ def corpus():
         evs += [(W, i, k), (K, i, v), (P, i, 0)]
         i += 1
     out.append(mk(1, 12, -1, 0, i, evs))
+    # (review 2, D4) a hit right after the poll that stored the value
+    out.append(mk(1, 2, U64, 4, 2, [(W, 0, 5), (K, 0, 7), (P, 0, 0), (W, 1, 5), (P, 1, 0)]))
+    # (review 2, D2) nanosecond clock, ttl 1500 ns: served at 1500 ns, expired at 1501 ns and at 1999 ns
+    out.append(mk(0, 2, 1500, 12, 4, [(W, 0, 3), (K, 0, 7), (P, 0, 0), (U, 1500, 0), (W, 1, 3), (P, 1, 0), (U, 1, 0), (W, 2, 3), (K, 2, 8), (P, 2, 0),
+                                      (U, 1999, 0), (W, 3, 3), (P, 3, 0)]))
+    # (review 2, D3) LFU, key A looked up 254 times, key B 256 times, then a third key arrives: A must go (an 8-bit counter has wrapped for B)
+    import random as _r
+    out.append(hot_script(_r.Random(3), 254, 256))
+    # keys above 119 (op 7), two stores
+    out.append(mk(2, 2, -1, 0, 5, [(W2, 0, wide2(0, 239)), (K, 0, 1), (P, 0, 0), (W2, 1, wide2(1, 120, 1)), (K, 1, 2), (P, 1, 0),
+                                   (W2, 2, wide2(0, 119)), (K, 2, 3), (P, 2, 0), (W2, 3, wide2(0, 200)), (K, 3, 4), (P, 3, 0), (W2, 4, wide2(0, 239)), (P, 4, 0)]))
     return out
 
 
@@ -217,7 +244,8 @@ def random_script(rng, maxlen=40):
     else:
         advs = [(A, x) for x in ([1, 1, 2] + ([ttl, ttl, ttl + 1, max(ttl - 1, 1)] if ttl > 0 else [5, 20]))]
         if ttl > 0:
-            advs += [(U, 1000 * ttl - 1), (U, 1), (U, 1000 * ttl + 1)]
+            un = unit_of(sh)
+            advs += [(U, un * ttl - 1), (U, 1), (U, un * ttl + 1)]
 
     def nxt():
         serial[0] += 1
@@ -387,6 +415,106 @@ def ttl_script(rng):
     return mk(pol, ms, ttl, sh, i, evs)
 
 
+def huge_script(rng, inserts=14):
+    """stores above the usual sampled-eviction thresholds: max_size 64..130 with max_size + inserts keys out of 0..239
+    (op 7). Fill the store, use every key a different number of times (a few not at all), then store new keys: every
+    insert evicts, and the policy victim is one particular entry among > 64 (> 128). Closed calls only (the model's
+    cost grows with the square of the script length)."""
+    pol = rng.choice([1, 1, 0, 2])
+    ms = rng.choice([65, 70, 100, 128, 129, 130, 130])
+    nk = min(NK2, ms + inserts)
+    keys = rng.sample(range(NK2), nk)
+    sh = rng.choice([0, 1, 2])
+    evs, i, v = [], 0, 9000
+
+    def closed(k, ok=True):
+        nonlocal i, v
+        v += 1
+        evs.extend([(W2, i, wide2(0, k, i % 2)), (K, i, v), (P, i, 0)] if ok else [(W2, i, wide2(0, k, i % 2)), (P, i, 0)])
+        i += 1
+
+    for k in keys[:ms]:
+        closed(k)
+    # uses: a random subset is hit 1..3 times, in random order; a few keys stay at their insertion count
+    cold = set(rng.sample(keys[:ms], rng.choice([1, 1, 2, 5])))
+    hitlist = []
+    for k in keys[:ms]:
+        if k not in cold:
+            hitlist += [k] * rng.choice([1, 1, 2, 3])
+    rng.shuffle(hitlist)
+    for k in hitlist:
+        closed(k, ok=False)
+    for k in keys[ms:]:
+        closed(k)
+        if rng.random() < 0.3:
+            closed(k, ok=False)        # the newcomer is used once: it is no longer the obvious next victim
+    # probe a sample of the keys (what is held; at most max_size may hit)
+    for k in rng.sample(keys, min(len(keys), 12)):
+        closed(k, ok=False)
+    return mk(pol, ms, -1, sh, i, evs)
+
+
+def hot_script(rng, ha=None, hb=None):
+    """LFU with two or three keys used very often (around 15, 255, 300 times), the less used one (ha < hb uses) must be
+    the victim: counters that wrap at 256 or saturate show"""
+    ms = rng.choice([2, 3])
+    ha = ha if ha is not None else rng.choice([13, 14, 15, 253, 254, 254, 300])
+    hb = hb if hb is not None else ha + rng.choice([2, 3])
+    sh = rng.choice([0, 1, 2])
+    ka, kb, kc, kd = rng.sample(range(NK), 4)
+    evs, i, v = [], 0, 100
+
+    def closed(k, ok=True):
+        nonlocal i, v
+        v += 1
+        evs.extend([(W, i, wide(0, k, 1)), (K, i, v), (P, i, 0)] if ok else [(W, i, wide(0, k, 1)), (P, i, 0)])
+        i += 1
+
+    closed(ka)
+    closed(kb)
+    order = [ka] * ha + [kb] * hb
+    if rng.random() < 0.5:
+        rng.shuffle(order)
+    for k in order:
+        closed(k, ok=False)
+    if ms == 3:
+        closed(kd)
+        for _ in range(hb + 5):
+            closed(kd, ok=False)
+    closed(kc)                     # evicts ka (used less than kb and kd)
+    for k in (kb, ka):
+        closed(k, ok=False)
+    return mk(1, ms, -1, sh, i, evs)
+
+
+def nano_script(rng):
+    """nanosecond clock ((sh//8) odd): TTLs and instants with a nanosecond part; lookups at ttl-1ns / ttl / ttl+1ns and
+    inside the last microsecond"""
+    pol = rng.randrange(3)
+    ms = rng.choice([1, 2])
+    shm = rng.choice([0, 1, 2])
+    ttl = rng.choice([1500, 1999, 1, 999, 1000001, 20000500])
+    sh = shm + 4 + 8
+    evs, i, v = [], 0, 70
+    k = rng.randrange(NK)
+    for _ in range(rng.randint(1, 3)):
+        v += 1
+        evs += [(W, i, wide(0, k, i % 2)), (K, i, v), (P, i, 0)]
+        i += 1
+        d = max(rng.choice([ttl - 1, ttl, ttl + 1, ttl + 499, ttl + 999, ttl // 2]), 0)
+        if rng.random() < 0.5 and d > 2:
+            cut = rng.randrange(1, d)
+            evs += [(U, cut, 0), (U, d - cut, 0)]
+        else:
+            evs.append((U, d, 0))
+        evs += [(W, i, wide(0, k, rng.randrange(2))), (P, i, 0)]
+        i += 1
+        if rng.random() < 0.3:
+            evs += [(A, 1, 0), (W, i, wide(0, k, 0)), (P, i, 0)]
+            i += 1
+    return mk(pol, ms, ttl, sh, i, evs)
+
+
 def overlap_script(rng):
     """several misses in flight at once, many on one key, completed and polled in random order"""
     pol = rng.randrange(3)
@@ -458,8 +586,11 @@ def generate(rng, tier):
         out += [random_script(rng) for _ in range(900)]
         out += [sequential_script(rng) for _ in range(450)]
         out += [overlap_script(rng) for _ in range(500)]
-        out += [big_script(rng, rng.choice([60, 120, 200])) for _ in range(260)]
+        out += [big_script(rng, rng.choice([60, 120, 200])) for _ in range(180)]
         out += [ttl_script(rng) for _ in range(250)]
+        out += [nano_script(rng) for _ in range(120)]
+        out += [huge_script(rng) for _ in range(14)]
+        out += [hot_script(rng) for _ in range(8)]
         for pol in range(3):
             out += list(exhaustive(3, pol, 2, 2, 0))
     else:
@@ -468,6 +599,9 @@ def generate(rng, tier):
         out += [overlap_script(rng) for _ in range(5000)]
         out += [big_script(rng, rng.choice([60, 120, 200, 300])) for _ in range(1200)]
         out += [ttl_script(rng) for _ in range(3000)]
+        out += [nano_script(rng) for _ in range(1500)]
+        out += [huge_script(rng, rng.choice([14, 30])) for _ in range(300)]
+        out += [hot_script(rng) for _ in range(150)]
         for pol in range(3):
             out += list(exhaustive(5, pol, 2, 2, 0))
             out += list(exhaustive(4, pol, 1, -1, 1))
@@ -478,34 +612,53 @@ def generate(rng, tier):
 # ----------------------------------------------------------------------------
 # The property, restated over the implementation's trace alone.
 #
-#  (a) a call that makes no inner call (a hit) answers a key for which a response has been stored, the latest one stored
-#      for that key in that store, stored no longer than the TTL before the lookup; the value it resolves to is that one;
+#  (a) a call that makes no inner call (a hit) answers a key for which a response is stored, the latest one stored for
+#      that key in that store, stored no longer than the TTL before the lookup; the value it resolves to is that one;
 #  (b) a call makes at most one inner call, in call(); the future of a miss resolves only once the inner call has
-#      completed, with the inner call's own response (Ok: that response — and it counts as stored from then on; Err/panic:
-#      an error, nothing stored); no inner call is made at any other moment;
-#  (c) a store never holds more than max_size responses (max_size >= 1), observed twice: by the live responses, and
+#      completed, with the inner call's own response (Ok: that response; Err/panic: an error); no inner call is made at
+#      any other moment;
+#  (c) a store never holds more than max_size responses (max_size >= 1), observed twice: by the store-content view, and
 #      black-box — the keys that hit between two stores were all held at once;
-#  (d) when a store evicts an unexpired entry, the store was full, only one unexpired entry goes, and no other unexpired
-#      entry ranks strictly before it under the configured policy, for SOME reading of the policy:
-#        LRU  last use = last hit or last store | last hit or insertion (an update is not a use)
-#        LFU  uses = hits + updates | hits | hits since the last store (all since the key became present)
+#  (d) whenever an unexpired entry leaves a store that is full (at ANY event: the poll that inserts, a call() that makes
+#      room in advance, a background task), only one unexpired entry goes and no other unexpired entry ranks strictly
+#      before it under a reading of the policy that is consistent with every earlier eviction from that store:
+#        LRU  last use = last hit or last store | last hit or insertion (an overwrite is not a use)
+#        LFU  uses = hits + overwrites | hits | hits since the last store (all since the key became present)
 #        FIFO first in = became present | last stored
+#      Storing a response evicts an unexpired entry only if the store is full and the key is new.
 #      Entries whose TTL has run out may leave at any time (lazily on lookup, swept on insert, ...), alone or with the
 #      victim, and are never counted as competitors of the victim.
-#  Nothing else: listener events, in-flight accounting, which tied entry goes, whether a fresh entry is lost early
-#  (a later call is then simply a miss), `>` vs `>=` at the TTL are left to the model comparison.
+#
+#  WHEN a response counts as stored is read off the store-content view, not off the caller's future: a response is in the
+#  store from the event at which the bit of its (store, key) appears; for a key that is already present (overwrite) the
+#  moment is not observable, so every poll of the miss from the completion of its inner call to the poll that resolves
+#  it is a possible moment, and a hit may return any value that is the latest under one of these possibilities (on the
+#  code as it is there is exactly one: the resolving poll). The usage statistics of clause (d) carry the same
+#  uncertainty as intervals.
+#  Store-content view = live response instances; if that accounting breaks anywhere in the run (negative count), the
+#  live key instances; if both break, clauses (c-by-view) and (d) cannot be evaluated and only the black-box clauses run —
+#  such a run can never pass the check, because the model's trace has no negative mask (correspondence mismatch).
+#  Nothing else: listener events, in-flight accounting, which tied entry goes, an unexpired entry leaving a store that is
+#  NOT full outside a store (a later call is then simply a miss), `>` vs `>=` at the TTL are left to the model comparison.
 class _Ent:
-    __slots__ = ("val", "at", "ins", "last_store", "last_hit", "hits", "upd", "hits_ls")
+    __slots__ = ("cands", "ins", "last_hit", "hits", "st_lo", "st_hi", "upd_lo", "upd_hi", "hls_lo", "hls_hi")
 
-    def __init__(self, val, at, j):
-        self.val, self.at, self.ins, self.last_store, self.last_hit = val, at, j, j, -1
-        self.hits = self.upd = self.hits_ls = 0
+    def __init__(self, cands, j):
+        self.cands = list(cands)            # possible "latest stored": (value, instant, event index)
+        self.ins, self.last_hit, self.hits = j, -1, 0
+        self.st_lo = self.st_hi = j         # event index of the last store
+        self.upd_lo = self.upd_hi = 0       # overwrites since the key became present
+        self.hls_lo = self.hls_hi = 0       # hits since the last store
+
+    def oldest(self):
+        return min(c[1] for c in self.cands) if self.cands else None
 
 
+# readings: entry -> (lowest, highest possible rank)
 _RANKS = {
-    0: [lambda x: max(x.last_hit, x.last_store), lambda x: max(x.last_hit, x.ins)],
-    1: [lambda x: x.hits + x.upd, lambda x: x.hits, lambda x: x.hits_ls],
-    2: [lambda x: x.ins, lambda x: x.last_store],
+    0: [lambda x: (max(x.last_hit, x.st_lo), max(x.last_hit, x.st_hi)), lambda x: (max(x.last_hit, x.ins),) * 2],
+    1: [lambda x: (x.hits + x.upd_lo, x.hits + x.upd_hi), lambda x: (x.hits, x.hits), lambda x: (x.hls_lo, x.hls_hi)],
+    2: [lambda x: (x.ins, x.ins), lambda x: (x.st_lo, x.st_hi)],
 }
 _POLNAME = ["LRU", "LFU", "FIFO"]
 
@@ -517,26 +670,38 @@ def monitor(s, t):
     pol, ms, ttl_raw, sh, n, m = header(s)
     pol = pol if pol in (1, 2) else 0
     shared = mode_of(sh) != 0
+    unit = unit_of(sh)
     ttl = ttl_us_of(ttl_raw, sh)
+    allm = [masks(o) for (_, o) in d]
+    # store-content view per store: 2 = responses, 0 = keys, None = neither usable
+    view = []
+    for st in (0, 1):
+        if all(mm[2 + st] >= 0 for mm in allm):
+            view.append(2)
+        elif all(mm[st] >= 0 for mm in allm):
+            view.append(0)
+        else:
+            view.append(None)
     now = 0
     ref = [dict(), dict()]     # store -> key -> _Ent : responses stored and, as far as observed, still held
-    state = {}                 # caller -> ("hit", value, key) | ("miss", store, key) | "done"
+    state = {}                 # caller -> ("hit", acceptable values, key) | ["miss", store, key, first possible store, pinned] | "done"
     gate = {}                  # caller -> outcome decided by the script (first Complete wins)
     window = [set(), set()]    # keys that hit since the last store into the store
-    seen_ok = [True, True]     # the live-response view of the store is usable
+    alive = [set(range(len(_RANKS[pol]))), set(range(len(_RANKS[pol])))]   # readings consistent so far
+
+    def expired(ent, loose=True):
+        o = ent.oldest()
+        return ttl >= 0 and o is not None and now - o >= ttl
+
     for j, (e, o) in enumerate(d):
         op, a, b = e
-        r, val, started, infl, evt, k0, k1, p0, p1 = o
-        pres = [p0, p1]
+        r, val, started = o[0], o[1], o[2]
         valid = 0 <= a < n
-        now += adv_of(e)
-        call = call_of(e) if (op in (0, 5) and valid and a not in state) else None
+        now += adv_of(e, unit)
+        call = call_of(e) if (op in (0, 5, 7) and valid and a not in state) else None
         if started and call is None:
             return "event %d %s: the inner service was called although no new request arrived" % (j, e)
-        for st in (0, 1):
-            if pres[st] < 0:
-                seen_ok[st] = False
-        stored = None          # (store, key, set of keys present before)
+        poss = None            # (store, key, value, caller record, resolved): this poll may have stored the value
         if call is not None:
             svc, k, _reuse = call
             st = 0 if shared else svc
@@ -545,22 +710,25 @@ def monitor(s, t):
                 return "event %d %s: one request called the inner service %d times" % (j, e, started)
             if started == 0:
                 # a hit: must be the latest stored value of this key, stored no longer than the TTL ago
-                if ent is None:
+                if ent is None or not ent.cands:
                     return "event %d %s: no inner call, but store %d holds no stored response for key %d" % (j, e, st, k)
-                if ttl >= 0 and now - ent.at > ttl:
-                    return "event %d %s: hit returns a value stored %d us ago, ttl %d us" % (j, e, now - ent.at, ttl)
-                state[a] = ("hit", ent.val, k)
+                fresh = set(c[0] for c in ent.cands if ttl < 0 or now - c[1] <= ttl)
+                if not fresh:
+                    return "event %d %s: hit returns a value stored %d units ago, ttl %d (fine units: %s)" % (
+                        j, e, min(now - c[1] for c in ent.cands), ttl, "ns" if unit == 10 ** 6 else "us")
+                state[a] = ("hit", fresh, k)
                 ent.last_hit = j
                 ent.hits += 1
-                ent.hits_ls += 1
+                ent.hls_lo += 1
+                ent.hls_hi += 1
                 window[st].add(k)
                 if ms >= 1 and len(window[st]) > ms:
                     return "event %d %s: keys %s of store %d all hit without a store in between: more than max_size %d entries held" % (
                         j, e, sorted(window[st]), st, ms)
             else:
                 # a miss; whether the entry was absent, expired or lost early is not the property's business
-                state[a] = ("miss", st, k)
-                if ent is not None and not seen_ok[st]:
+                state[a] = ["miss", st, k, None, False]
+                if ent is not None and view[st] is None:
                     del ref[st][k]
         elif op == 1 and valid:
             stt = state.get(a)
@@ -570,11 +738,12 @@ def monitor(s, t):
                 if r in (2, 5):
                     return "event %d %s: a request answered without an inner call resolved to an error (%d)" % (j, e, r)
                 if r == 1:
-                    if val != stt[1]:
-                        return "event %d %s: hit for key %d returned %d, latest stored value is %d" % (j, e, stt[2], val, stt[1])
+                    if val not in stt[1]:
+                        return "event %d %s: hit for key %d returned %d, latest stored value is %s" % (
+                            j, e, stt[2], val, "/".join(str(x) for x in sorted(stt[1])))
                     state[a] = "done"
             else:
-                _, st, k = stt
+                _, st, k, first, pinned = stt
                 g = gate.get(a)
                 if r in (1, 2, 5):
                     if g is None:
@@ -586,66 +755,96 @@ def monitor(s, t):
                     if g < 0 and r != 5:
                         return "event %d %s: inner panic came back as %d" % (j, e, r)
                     state[a] = "done"
-                    if g > 0:
-                        stored = (st, k, g)
+                if g is not None and g > 0 and not pinned:
+                    poss = (st, k, g, stt, r == 1)
         elif op == 2 and valid:
             if a in state:
                 state[a] = "done"
         elif op == 4 and valid:
             gate.setdefault(a, b)
 
-        # --- what left the stores during this event (live-response view) ---
+        # --- the stores after this event ---
         for st in (0, 1):
-            if not seen_ok[st]:
-                continue
             before = ref[st]
-            lost = [k for k in before if not (pres[st] >> k) & 1]
-            is_store = stored is not None and stored[0] == st
-            if is_store:
-                _, k, g = stored
-                lost = [x for x in lost if x != k]
-                # entries whose TTL has run out (>=: either reading of the boundary) may go any time
-                expd = [x for x in lost if ttl >= 0 and now - before[x].at >= ttl]
-                vic = [x for x in lost if x not in expd]
-                if ms >= 1 and vic:
-                    remaining = len(before) - len(expd) + (0 if k in before else 1)
-                    if remaining <= ms:
-                        return "event %d %s: storing key %d evicted unexpired key %d although store %d was not full (%d entries, max_size %d)" % (
-                            j, e, k, vic[0], st, len(before) - len(expd), ms)
+            mine = poss if (poss is not None and poss[0] == st) else None
+            if view[st] is None:
+                # no content view: nothing is ever seen leaving; a response counts as (possibly) stored at every poll
+                # of its miss from the completion of the inner call on
+                pres_has = lambda x: (x in before) or (mine is not None and x == mine[1])
+                appeared = [mine[1]] if (mine is not None and mine[1] not in before) else []
+                lost = []
+            else:
+                pm = allm[j][view[st] + st]
+                pres_has = lambda x, pm=pm: (pm >> x) & 1 == 1
+                lost = [x for x in before if not pres_has(x)]
+                appeared = [x for x in range(pm.bit_length()) if (pm >> x) & 1 and x not in before]
+            # (d) unexpired entries leaving
+            expd = [x for x in lost if expired(before[x])]
+            vic = [x for x in lost if x not in expd]
+            if ms >= 1 and vic:
+                full = len(before) - len(expd) >= ms
+                is_store = bool(appeared) or mine is not None
+                if is_store and not (full and appeared):
+                    return "event %d %s: storing key %s evicted unexpired key %d although store %d %s (%d unexpired entries, max_size %d)" % (
+                        j, e, (appeared or [mine[1]])[0], vic[0], st,
+                        "was not full" if not full else "already held the key", len(before) - len(expd), ms)
+                if full:
                     if len(vic) > 1:
-                        return "event %d %s: storing key %d evicted %d unexpired entries (keys %s)" % (j, e, k, len(vic), vic)
+                        return "event %d %s: %d unexpired entries (keys %s) left the full store %d at once" % (j, e, len(vic), vic, st)
                     v = vic[0]
-                    comp = [before[x] for x in before if x != v and x != k and x not in expd]
-                    ok = any(all(rank(before[v]) <= rank(y) for y in comp) for rank in _RANKS[pol])
+                    comp = [before[x] for x in before if x != v and x not in expd and not expired(before[x])]
+                    ok = set()
+                    for ri in alive[st]:
+                        rank = _RANKS[pol][ri]
+                        lo = rank(before[v])[0]
+                        if all(lo <= rank(y)[1] for y in comp):
+                            ok.add(ri)
                     if not ok:
-                        return "event %d %s: %s evicted key %d of store %d although another unexpired entry ranks before it under every reading of the policy" % (
-                            j, e, _POLNAME[pol], v, st)
+                        return ("event %d %s: %s evicted key %d of store %d although another unexpired entry ranks before it under every reading "
+                                "of the policy%s" % (j, e, _POLNAME[pol], v, st,
+                                                     "" if len(alive[st]) == len(_RANKS[pol]) else " that fits the earlier evictions"))
+                    alive[st] = ok
+                # an unexpired entry leaving a store that is not full, outside a store: lost early, not ranked
             for x in lost:
                 del before[x]
-            if is_store:
-                _, k, g = stored
-                ent = before.get(k)
-                if (pres[st] >> k) & 1:
-                    if ent is None:
-                        before[k] = _Ent(g, now, j)
-                    else:
-                        ent.val, ent.at, ent.last_store = g, now, j
-                        ent.upd += 1
-                        ent.hits_ls = 0
-                elif ent is not None:
-                    del before[k]
+            # responses that entered the store
+            for x in appeared:
+                if mine is not None and x == mine[1]:
+                    before[x] = _Ent([(mine[2], now, j)], j)
+                    mine[3][4] = True          # pinned: the later polls of this miss store nothing
+                else:
+                    # not during a poll of a miss on that key: any miss on it whose inner call has completed Ok
+                    cs_ = [(gate[c], now, j) for c, sx in state.items()
+                           if isinstance(sx, list) and sx[1] == st and sx[2] == x and not sx[4] and gate.get(c, 0) > 0]
+                    before[x] = _Ent(cs_, j)
                 window[st] = set()
-            if ms >= 1 and bin(pres[st]).count("1") > ms:
-                return "event %d %s: store %d holds %d entries, max_size %d" % (j, e, st, bin(pres[st]).count("1"), ms)
-        # without the live-response view: black-box bookkeeping only (every Ok response of a miss counts as stored)
-        if stored is not None and not seen_ok[stored[0]]:
-            st, k, g = stored
-            ent = ref[st].get(k)
-            if ent is None:
-                ref[st][k] = _Ent(g, now, j)
-            else:
-                ent.val, ent.at, ent.last_store = g, now, j
-            window[st] = set()
+            if mine is not None and mine[1] not in appeared and mine[1] in before and pres_has(mine[1]):
+                # the key was present before and still is: an overwrite now, or at an earlier / later poll of this miss
+                _, k, g, rec, resolved = mine
+                ent = before[k]
+                first = rec[3]
+                if first is None:
+                    rec[3] = first = j
+                    ent.upd_hi += 1
+                if resolved and first == j:
+                    ent.cands = [(g, now, j)]
+                    ent.st_lo = ent.st_hi = j
+                    ent.upd_lo += 1
+                    ent.hls_lo = ent.hls_hi = 0
+                elif resolved:
+                    ent.cands = [c for c in ent.cands if c[2] >= first] + [(g, now, j)]
+                    ent.st_lo, ent.st_hi = max(ent.st_lo, first), j
+                    ent.upd_lo += 1
+                    ent.hls_lo = 0
+                else:
+                    ent.cands.append((g, now, j))
+                    ent.st_hi = j
+                    ent.hls_lo = 0
+                window[st] = set()
+            if view[st] is not None and ms >= 1:
+                cnt = bin(allm[j][view[st] + st]).count("1")
+                if cnt > ms:
+                    return "event %d %s: store %d holds %d entries, max_size %d" % (j, e, st, cnt, ms)
     return None
 
 
@@ -655,21 +854,25 @@ def nontrivial(s, t):
         return True
     prev = [0, 0]
     for (e, o) in d:
+        km = masks(o)
         if o[4] & 1:
             return True
-        if (prev[0] & ~o[5]) or (prev[1] & ~o[6]):
+        if (prev[0] & ~km[0]) or (prev[1] & ~km[1]):
             return True
-        prev = [o[5], o[6]]
+        prev = [max(km[0], 0), max(km[1], 0)]
     return False
 
 
 def classify(s, t):
     pol, ms, ttl, sh, n, m = header(s)
     tu = ttl_us_of(ttl, sh)
+    unit = unit_of(sh)
     out = [["lru", "lfu", "fifo"][pol % 3],
-           "max_size_%s" % (ms if ms <= 4 else ("5_8" if ms <= 8 else ("9_16" if ms <= 16 else ("17_33" if ms <= 33 else "huge")))),
-           "ttl_%s" % ("none" if tu < 0 else ("zero" if tu == 0 else ("submilli" if tu % 1000 else ("ge_1s" if tu >= 10 ** 6 else "finite")))),
+           "max_size_%s" % (ms if ms <= 4 else ("5_8" if ms <= 8 else ("9_16" if ms <= 16 else ("17_33" if ms <= 33 else ("34_130" if ms <= 130 else "huge"))))),
+           "ttl_%s" % ("none" if tu < 0 else ("zero" if tu == 0 else ("submilli" if tu % unit else ("ge_1s" if tu >= 1000 * unit else "finite")))),
            "store_%s" % ("private" if mode_of(sh) == 0 else "shared")]
+    if unit == 10 ** 6:
+        out.append("nanosecond_clock")
     d = decode(s, t)
     if d:
         prev = [0, 0]
@@ -678,44 +881,61 @@ def classify(s, t):
         maxheld = 0
         keys = set()
         reused = {}
+        uses = {}
         for (e, o) in d:
-            c = call_of(e) if e[0] in (0, 5) else None
+            km = masks(o)
+            c = call_of(e) if e[0] in (0, 5, 7) else None
             if c:
                 keys.add(c[1])
+                uses[c[1]] = uses.get(c[1], 0) + 1
                 if c[2]:
                     reused[c[0]] = reused.get(c[0], 0) + 1
             if o[4] & 1:
                 seen.add("saw_hit")
-            if e[0] in (0, 5) and o[2]:
+            if e[0] in (0, 5, 7) and o[2]:
                 seen.add("saw_miss")
             if o[0] == 2:
                 seen.add("saw_inner_err")
             if o[0] == 5:
                 seen.add("saw_panic")
-            lost = (prev[0] & ~o[5]) | (prev[1] & ~o[6]) if o[5] >= 0 and o[6] >= 0 else 0
+            if min(km) < 0:
+                seen.add("content_view_broken")
+            k0, k1 = max(km[0], 0), max(km[1], 0)
+            lost = (prev[0] & ~k0) | (prev[1] & ~k1)
             if lost and e[0] == 1:
                 seen.add("saw_eviction")
-                if bin(prev[0]).count("1") > 8 or bin(prev[1]).count("1") > 8:
+                held = max(bin(prev[0]).count("1"), bin(prev[1]).count("1"))
+                if held > 8:
                     seen.add("eviction_from_more_than_8")
-            if lost and e[0] in (0, 5):
+                if held > 64:
+                    seen.add("eviction_from_more_than_64")
+                if held > 128:
+                    seen.add("eviction_from_more_than_128")
+            if lost and e[0] in (0, 5, 7):
                 seen.add("saw_expiry")
             if e[0] == 2:
                 seen.add("has_cancel")
             if e[0] == 6 and e[1] % 1000:
                 seen.add("submilli_advance")
-            if o[6]:
+            if k1:
                 seen.add("second_store_used")
             maxinfl = max(maxinfl, o[3])
-            maxheld = max(maxheld, bin(max(o[5], 0)).count("1"), bin(max(o[6], 0)).count("1"))
-            prev = [max(o[5], 0), max(o[6], 0)]
+            maxheld = max(maxheld, bin(k0).count("1"), bin(k1).count("1"))
+            prev = [k0, k1]
         if maxinfl >= 2:
             seen.add("overlapping_misses")
         if any(v >= 2 for v in reused.values()):
             seen.add("one_service_value_called_repeatedly")
         if len(keys) > 8:
             seen.add("more_than_8_keys")
+        if len(keys) > 120:
+            seen.add("more_than_120_keys")
+        if uses and max(uses.values()) > 256:
+            seen.add("one_key_used_more_than_256_times")
         if maxheld > 8:
             seen.add("held_more_than_8")
+        if maxheld > 64:
+            seen.add("held_more_than_64")
         out += sorted(seen)
     return out
 
@@ -725,8 +945,8 @@ def shrink(s):
     pol, ms, ttl, sh, n, m = header(s)
     evs = events(s)
     if len(evs) > 30:
-        for c in sorted({e[1] for e in evs if e[0] in (0, 5)}, reverse=True):
-            rest = [e for e in evs if not (e[0] in (0, 1, 2, 4, 5) and e[1] == c)]
+        for c in sorted({e[1] for e in evs if e[0] in (0, 5, 7)}, reverse=True):
+            rest = [e for e in evs if not (e[0] in (0, 1, 2, 4, 5, 7) and e[1] == c)]
             if len(rest) < len(evs):
                 yield mk(pol, ms, ttl, sh, n, rest)
     for i in range(len(evs)):
